@@ -120,6 +120,7 @@ type fnTrans struct {
 	strict bool
 	freeVarVals map[string]Val
 	cse map[string]string
+	loopMods map[string]bool
 }
 
 func (t *fnTrans) errorf(format string, a ...interface{}) {
@@ -310,6 +311,9 @@ func arr2Sort(s string) string { return "(Array Int (Array Int " + s + "))" }
 // heapComp remembers, per heap name, the leaf component stored in it (for range axioms).
 var heapComp = map[string]Comp{}
 
+// heapSortReg: sort of every heap whose name was ever constructed (independent of translation order).
+var heapSortReg = map[string]string{}
+
 func regComp(name string, T types.Type, suffix string) {
 	if _, ok := heapComp[name]; ok {
 		return
@@ -317,6 +321,12 @@ func regComp(name string, T types.Type, suffix string) {
 	for _, c := range flatten(T) {
 		if c.Suffix == suffix {
 			heapComp[name] = c
+			switch name[0] {
+			case 'E':
+				heapSortReg[name] = arr2Sort(c.Sort)
+			default:
+				heapSortReg[name] = arrSort(c.Sort)
+			}
 			return
 		}
 	}
@@ -396,6 +406,18 @@ func (t *fnTrans) rangeAxiom(name, term, sort string) {
 		}
 	}
 	var lo, hi string
+	if fr, ok := t.eng.cs.FieldRange[name]; ok {
+		var v, bind string
+		if strings.HasPrefix(sort, "(Array Int (Array Int") {
+			v = "(select (select " + term + " a!r) i!r)"
+			bind = "((a!r Int) (i!r Int))"
+		} else {
+			v = "(select " + term + " a!r)"
+			bind = "((a!r Int))"
+		}
+		t.assumeRaw(fmt.Sprintf("(forall %s (! %s :pattern (%s)))", bind, and(le(fr[0], v), le(v, fr[1])), v))
+		return
+	}
 	switch c.Part {
 	case "":
 		l, h, ok := intRange(c.T)
@@ -1485,6 +1507,9 @@ func (t *fnTrans) locate(li *loopInfo, ins ssa.Instruction, heaps map[string]boo
 							done = true
 						}
 					}
+				} else if r, ok := t.stableBaseRef(li, ct, n.X, argOf); ok {
+					pends = append(pends, pend{hs, r, false})
+					done = true
 				}
 			}
 			if !done {
@@ -1496,6 +1521,24 @@ func (t *fnTrans) locate(li *loopInfo, ins ssa.Instruction, heaps map[string]boo
 				out["G."+g] = &locset{whole: true}
 			} else {
 				ls.whole = true
+			}
+		}
+		if ct.Flags["yield"] != "" {
+			// interference at this call: the rely locations, evaluated in the state at the loop head
+			for _, loc := range t.ct.RelyMod {
+				env := t.specEnv(t.st, t.st)
+				nerr := len(t.errs)
+				l, ok := t.resolveLoc(loc, env, t.st)
+				t.errs = t.errs[:nerr]
+				if !ok {
+					continue
+				}
+				switch l.kind {
+				case locField, locCell, locElems:
+					pends = append(pends, pend{l.heaps, l.ref, false})
+				default:
+					pends = append(pends, pend{l.heaps, "", true})
+				}
 			}
 		}
 		touched := map[string]bool{}
@@ -1533,11 +1576,55 @@ func (t *fnTrans) locate(li *loopInfo, ins ssa.Instruction, heaps map[string]boo
 	whole()
 }
 
+// stableBaseRef evaluates a location base such as `bf.pseq` (param.field) at the loop head, provided the field
+// heap it reads is not modified inside the loop (so the object written is the same in every iteration).
+func (t *fnTrans) stableBaseRef(li *loopInfo, ct *Contract, x ast.Expr, argOf func(string) ssa.Value) (string, bool) {
+	se, ok := x.(*ast.SelectorExpr)
+	if !ok {
+		return "", false
+	}
+	pid, ok := se.X.(*ast.Ident)
+	if !ok {
+		return "", false
+	}
+	av := argOf(pid.Name)
+	if av == nil {
+		return "", false
+	}
+	base, ok := t.objRefTerm(li, av)
+	if !ok {
+		return "", false
+	}
+	pt, ok := under(av.Type()).(*types.Pointer)
+	if !ok || !isStruct(pt.Elem()) {
+		return "", false
+	}
+	S := pt.Elem()
+	if fieldIndex(S, se.Sel.Name) < 0 {
+		return "", false
+	}
+	ft := under(S).(*types.Struct).Field(fieldIndex(S, se.Sel.Name)).Type()
+	if _, isPtr := under(ft).(*types.Pointer); !isPtr {
+		return "", false
+	}
+	hn := fieldHeap(S, se.Sel.Name, "")
+	if t.loopMods != nil && t.loopMods[hn] {
+		return "", false
+	}
+	h := t.heapGet(t.st, hn, arrSort("Int"))
+	return sel(h, base), true
+}
+
 // havocLoop forgets everything the loop body may modify; for heaps whose writes can be
 // located (fixed arrays / objects), everything else that existed at the loop head is kept.
 func (t *fnTrans) havocLoop(li *loopInfo) {
 	mods := map[string]bool{}
 	locs := map[string]*locset{}
+	type eff struct {
+		ins ssa.Instruction
+		m   map[string]bool
+	}
+	var effs []eff
 	for b := range li.body {
 		for _, ins := range b.Instrs {
 			m1 := map[string]bool{}
@@ -1548,11 +1635,16 @@ func (t *fnTrans) havocLoop(li *loopInfo) {
 			for k := range m1 {
 				mods[k] = true
 			}
-			nerr := len(t.errs)
-			t.locate(li, ins, m1, locs)
-			t.errs = t.errs[:nerr]
+			effs = append(effs, eff{ins, m1})
 		}
 	}
+	t.loopMods = mods
+	for _, e := range effs {
+		nerr := len(t.errs)
+		t.locate(li, e.ins, e.m, locs)
+		t.errs = t.errs[:nerr]
+	}
+	t.loopMods = nil
 	for _, g := range t.ct.Ghosts {
 		if g.Loop == li.ordinal && g.At == "latch" {
 			mods["G."+g.Name] = true
@@ -1569,12 +1661,18 @@ func (t *fnTrans) havocLoop(li *loopInfo) {
 	for _, k := range names {
 		sortOf, ok := t.eng.heapSort[k]
 		if !ok {
+			sortOf, ok = heapSortReg[k]
+		}
+		if !ok {
+			if k != "$top" && k != "$held" {
+				t.errorf("loop %d: cannot havoc heap %s (unknown sort)", li.ordinal, k)
+			}
 			continue
 		}
 		old := t.heapGet(t.st, k, sortOf)
 		n := t.heapHavoc(t.st, k, sortOf)
 		ls := locs[k]
-		located := ls != nil && !ls.whole && (strings.HasPrefix(k, "E.") || strings.HasPrefix(k, "F.") || strings.HasPrefix(k, "C."))
+		located := ls != nil && !ls.whole && (strings.HasPrefix(k, "E.") || strings.HasPrefix(k, "F.") || strings.HasPrefix(k, "C.") || strings.HasPrefix(k, "GF."))
 		if located {
 			var ex []string
 			seen := map[string]bool{}
